@@ -22,7 +22,7 @@ RULES = {
              'replicate_count == ack_count',
     'C15.d': 'no fetch_sub / store on ack_count or replicate_count anywhere',
     'C15.e': 'the Acknowledge arm passes the request\'s opp_id and server_name to the acknowledge function',
-    'C15.g': 'a node signs its acknowledgements with the same Databases field it names itself with in its other node-to-node messages (sibling agreement over every command-word template that carries a String field of Databases): an ack signed with another name is a foreign acknowledgement on the primary and is never counted',
+    'C15.g': 'a node names itself with ONE field of its Databases in every node-to-node message (ack signature, election candidate / alive, catch-up request, link announcement): placeholder origins are followed up the call chain; two different fields mean the other nodes know it under one name and hear from it under another',
 }
 
 PENDING = 'std::collections::HashMap::<u64, nundb::bo::ReplicationMessage>::'
@@ -275,18 +275,28 @@ def const_sources(b, local, _seen=None):
     return out
 
 
-def self_name_agrees(ck, m):
-    """C15.g — the primary counts an acknowledgement under the member name it registered, i.e. the name the node announced for
-    itself; the acknowledging node signs with a field of its own Databases.  The sibling node-to-node messages in which a node
-    names itself (election candidate / alive) are the reference: the ack must take the node's name from the same field."""
+def self_name_agrees(ck, m, rule='C15.g'):
+    """C15.g (repeated as C05.k) — a node has two addresses (`tcp_address` it listens on, `external_tcp_address` it is known by); the
+    other nodes register it, count its acknowledgements and address its catch-up under the name it announced.  Every node-to-node
+    message in which a node names ITSELF must therefore take the name from one and the same field of its Databases.  The origin of each
+    placeholder is followed up the call chain (parameters to call sites, coroutine captures to the async fn's arguments)."""
     from nl import wire
-    from nl.effects import last_named_field
     from props import C10
-    ck.rule('C15.g', 'a node signs its acknowledgements with the same Databases field it names itself with in its other node-to-node '
-                     'messages (sibling agreement over every command-word template that carries a String field of Databases): an ack signed '
-                     'with another name is a foreign acknowledgement on the primary and is never counted')
     P = m.prog
     _prods, sch = C10.wire_facts(m)
+    # which fields of Databases are names of the node: those that the code compares with the name of a cluster member
+    name_fields = set()
+    for b in P.user_bodies():
+        if b.id.startswith(('nundb::client::', 'nundb::command_line::')):
+            continue
+        for bi, t in b.calls():
+            if not callee_decl(t).endswith(('PartialEq::eq', 'PartialEq::ne')) or len(t['args']) < 2:
+                continue
+            sides = [core.deep_field_roots(P, b, a) for a in t['args'][:2]]
+            for x, y in ((0, 1), (1, 0)):
+                if any(adt.endswith('bo::ClusterMember') and fld == 'name' for adt, fld in sides[x]):
+                    name_fields |= {fld for adt, fld in sides[y] if adt.endswith('bo::Databases')}
+    ck.floor(rule, len(name_fields), 1, 'fields of Databases that are compared with a cluster member\'s name')
     uses = {}       # first word -> {field: loc}
     for b in P.user_bodies():
         if b.id.startswith(('nundb::client::', 'nundb::command_line::')):
@@ -296,27 +306,22 @@ def self_name_agrees(ck, m):
             if w not in sch:
                 continue
             for pc in f.pieces:
-                if pc[0] != 'arg' or pc[1] is None or not core.is_str_ty(pc[2]):
+                if pc[0] != 'arg' or pc[1] is None or 'String' not in str(pc[2]) and not core.is_str_ty(pc[2]):
                     continue
-                for r in origins(b, pc[1]):
-                    lf = last_named_field(r[-1]) if r[-1] else None
-                    if lf and lf[0].endswith('bo::Databases'):
-                        uses.setdefault(w, {})[lf[1]] = b.loc(bi)
+                for (adt, fld) in core.deep_field_roots(P, b, pc[1]):
+                    if adt.endswith('bo::Databases') and fld in name_fields:
+                        uses.setdefault(w, {})[fld] = b.loc(bi)
     ackw = [w for w in uses if sch[w][1] == ['Acknowledge']]
-    others = {w: u for w, u in uses.items() if w not in ackw}
-    ck.floor('C15.g', len(ackw), 1, 'acknowledgement templates signed with a Databases field')
-    ck.floor('C15.g', len(others), 1, 'other node-to-node templates in which the node names itself')
-    if not ackw or not others:
-        return
-    ref = set()
-    for u in others.values():
-        ref |= set(u)
-    for w in ackw:
-        mine = set(uses[w])
-        ok = len(ref) == 1 and mine == ref
-        ck.ob('C15.g', 'wire', 'ack-signed-with-the-announced-name', ok,
-              'the ack and the %s messages all name the node by Databases.%s' % (sorted(others), sorted(ref)[0]) if ok else
-              'the ack is signed with Databases.%s (%s) while %s name the node by Databases.%s: when the two differ (a node started with an '
-              'external address) the primary, which registered the pending operation under the announced name, treats every ack as '
-              'foreign — nothing it sends to that node is ever fully acknowledged' % (sorted(mine), sorted(uses[w].values()), sorted(others), sorted(ref)),
-              sorted(uses[w].values())[0])
+    ck.floor(rule, len(ackw), 1, 'acknowledgement templates signed with a Databases field')
+    ck.floor(rule, len([w for w in uses if w not in ackw]), 1, 'other node-to-node templates in which the node names itself')
+    fields = {}
+    for w, u in uses.items():
+        for fld, loc in u.items():
+            fields.setdefault(fld, []).append('%s (%s)' % (w, loc))
+    ok = len(fields) == 1
+    ck.ob(rule, 'wire', 'one-self-name-on-the-wire', ok,
+          'every node-to-node message in which a node names itself (%s) takes the name from Databases.%s' % (sorted(uses), sorted(fields)[0]) if ok else
+          'a node names itself from different fields of its Databases: %s — when the two addresses differ (a node started with an external '
+          'address) the other nodes know it under one name and hear from it under another: its acknowledgements count as foreign and nothing '
+          'sent to it is ever fully acknowledged, or its catch-up request names a member the primary does not have and nothing is sent'
+          % {k: v for k, v in sorted(fields.items())}, '')
